@@ -535,18 +535,23 @@ class Extractor:
         k = rsx._skip_trivia(toks, fp.name_idx + 1, it.end)
         generic_names = set()
         if toks[k].text == '<':
-            j = k + 1; depth = 1
+            j = k + 1; depth = 1; cur = []; entries = []
             while depth > 0:
                 t = toks[j]
-                if t.text == '<': depth += 1
-                elif t.text == '>': depth -= 1
+                if t.text == '<' or (t.kind == 'punct' and t.text in '(['): depth += 1
+                elif t.text == '>' or (t.kind == 'punct' and t.text in ')]'): depth -= 1
                 elif t.text == '>>': depth -= 2
-                elif depth == 1 and t.kind == 'ident' and t.text == 'const':
-                    n = rsx._skip_trivia(toks, j + 1, it.end); consts.append(toks[n].text)
-                elif depth == 1 and t.kind == 'ident' and toks[rsx._skip_trivia(toks, j - 1, j) if False else j - 1].text in ('<', ','):
-                    generic_names.add(t.text)
-                elif t.kind == 'lifetime': generic_names.add(t.text)
+                if depth <= 0: break
+                if t.kind == 'punct' and t.text == ',' and depth == 1: entries.append(cur); cur = []
+                else: cur.append(t)
                 j += 1
+            entries.append(cur)
+            for e_ in entries:
+                sig_e = [x for x in e_ if x.kind not in ('ws', 'comment')]
+                if not sig_e: continue
+                if sig_e[0].text == 'const' and len(sig_e) > 1: consts.append(sig_e[1].text)
+                elif sig_e[0].kind == 'lifetime': generic_names.add(sig_e[0].text)
+                elif sig_e[0].kind == 'ident': generic_names.add(sig_e[0].text)
         # parameters
         params = []; recv = None
         depth = 0; cur = []
@@ -578,6 +583,10 @@ class Extractor:
             if t.kind == 'ident' and t.text == 'return':
                 if not (i_ + 1 < len(sig_body) and sig_body[i_ + 1].text == 'Err'): return None
             if t.kind == 'ident' and t.text == it.name and i_ + 1 < len(sig_body) and sig_body[i_ + 1].text in ('(', '::'): return None   # recursion
+        # a type parameter of the helper that is NAMED in its body could change meaning at the call site (a type parameter of
+        # the same name may be in scope there): such helpers are not beta-reduced
+        type_generics = set(gn for gn in generic_names if not gn.startswith("'"))
+        if any(t.kind == 'ident' and t.text in type_generics for t in sig_body): return None
         has_q = any(t.kind == 'punct' and t.text == '?' for t in sig_body)
         has_ret = any(t.kind == 'ident' and t.text == 'return' for t in sig_body)
         is_result = bool(re.match(r'Result\s*<', ret)) and 'ParseError' in ret
